@@ -51,6 +51,8 @@ def run_purity_case(case: dict) -> dict:
             events.append({"ev": "run", "k": ident[k], "deps": [], "dig": sched.digest(out), "inb": [], "ina": []})
             continue
         kind = sched.describe(node).get("kind")
+        if any(d not in store for d in deps):
+            continue   # a dependency failed to run (already reported)
         for ev in ("run", "rerun", "ship"):
             inb = [sched.digest(store[d]) for d in deps]
             try:
